@@ -520,6 +520,10 @@ def _build_eval_tree(
                         tokens, op_priority, index + 1, depth + 1, "unary"
                     )
                     result = EvalTreeNode(left=right, operator=current_token)
+            else:
+                raise DefinitionSyntaxError(f"unknown operator '{token_text}'")
+        elif token_type == tokenlib.STRING:
+            raise DefinitionSyntaxError(f"unexpected string {token_text}")
         elif token_type in (tokenlib.NUMBER, tokenlib.NAME):
             if result:
                 # tokens with an implicit operation i.e. "1 kg"
